@@ -5,3 +5,18 @@ open Lungo.C02
 #print axioms owned_sound_strict
 #print axioms op_error_preserves
 #print axioms op_preserves_old_roots
+#print axioms insert_loop
+#print axioms bulk_loop
+#print axioms items_checked
+#print axioms item_effect
+#print axioms insertMany_effect
+#print axioms bulk_effect
+#print axioms neg_no_clone
+#print axioms neg_shared_set
+#print axioms neg_assign_before_check
+#print axioms neg_shared_item_clone
+#print axioms Lungo.Expected.expected_owned
+#print axioms Lungo.Expected.expected_args
+#print axioms Lungo.Expected.bulk_args_not_cloned
+#print axioms Lungo.Expected.collFootprint_ok
+#print axioms Lungo.Expected.collApply_fresh
